@@ -66,9 +66,10 @@ func (p *Parser) rune() rune {
 		// p.r instead of b so that newline
 		// character positions don't have col 0.
 		p.line++
-		p.col = 0
+		p.col = 1
+	} else {
+		p.col += int64(p.w)
 	}
-	p.col += int64(p.w)
 	bquotes := 0
 retry:
 	if p.bsp >= uint(len(p.bs)) && p.fill() == 0 {
@@ -96,12 +97,11 @@ retry:
 			if p.r == '\\' {
 			} else if p.peek() == '\n' {
 				p.bsp++
-				p.w, p.r = 1, escNewl
+				p.w, p.r = 2, escNewl
 				return escNewl
 			} else if p1, p2 := p.peekTwo(); p1 == '\r' && p2 == '\n' { // \\\r\n turns into \\\n
-				p.col++
 				p.bsp += 2
-				p.w, p.r = 2, escNewl
+				p.w, p.r = 3, escNewl
 				return escNewl
 			}
 			// TODO: why is this necessary to ensure correct position info?
